@@ -8,6 +8,7 @@ once; never more than max_number_of_live_tokens items are in flight; the call re
 input and after every emitted item has left the last filter.
 -/
 import TbbVerif.Proofs.C07.Refine
+import TbbVerif.Proofs.C07.Final
 
 namespace TbbVerif.C07
 
@@ -61,5 +62,153 @@ example :
   decide
 
 example : TokenBuf.WF (TokenBuf.new false) := (TokenBuf.new_wf false).1
+
+/-! ## The pipeline protocol
+
+`sys c` is the interleaving system of `Model/C07.lean`: agents are the stage_task objects, a schedule is
+any `List Tid` (any number of worker threads, any interleaving of their lock regions / RMWs / filter calls).
+`c.Valid` = at least one filter and `max_number_of_live_tokens ≥ 1`; filter modes, token limit and item
+count are arbitrary. -/
+
+/-- an invocation of filter `k` is in progress in task `t` -/
+def insideFilter (k : Nat) (t : Task) : Bool :=
+  (t.pc == .inFilter && t.stage == k) || (k == 0 && (t.pc == .inCallS || t.pc == .inCallP))
+
+/-- **live_tokens_bounded.** In every reachable state the number of items that the input filter has
+returned and that have not yet left the last filter is at most `max_number_of_live_tokens`. -/
+theorem live_tokens_bounded (c : Cfg) (hv : c.Valid) (sched : List Tid) :
+    ((sys c).run sched).produced - (((sys c).run sched).done (c.n - 1)).length ≤ c.maxTok :=
+  live_bound (inv_reachable hv sched).2.1
+
+/-- **serial_mutex.** In every reachable state at most one invocation of a serial filter (in-order or
+out-of-order, the input filter included) is in progress. -/
+theorem serial_mutex (c : Cfg) (hv : c.Valid) (sched : List Tid) (k : Nat) (hk : (c.mode k).serial = true) :
+    ((sys c).run sched).tasks.countP (insideFilter k) ≤ 1 := by
+  obtain ⟨hA, hB, hC, _, _⟩ := inv_reachable hv sched
+  rcases Nat.eq_zero_or_pos k with rfl | hpos
+  · refine Nat.le_trans (List.countP_mono_left (q := inputAgent) ?_) hB.inpLe
+    intro x hx hin
+    obtain ⟨i, hi, rfl⟩ := List.mem_iff_getElem.1 hx
+    have hso := hA.stage i _ (List.getElem?_eq_getElem hi)
+    unfold insideFilter at hin; unfold inputAgent
+    cases hpc : (((sys c).run sched).tasks[i]).pc <;> simp [hpc, inputPc] at hin ⊢
+    · have := hso.2.2.2 (by simp [parInPc, hpc]); rw [hk] at this; cases this
+    · have := (hso.2.1 (by simp [midPc, hpc])).1; omega
+  · refine Nat.le_trans (List.countP_mono_left (q := own k) ?_) (hC.own1 k hk)
+    intro x _ hin
+    unfold insideFilter at hin; unfold own
+    have hk0 : (k == 0) = false := by simp; omega
+    cases hpc : x.pc <;> simp [hpc, hk0, ownPc] at hin ⊢
+    exact hin
+
+/-- **serial_in_order.** `numbered` is the order in which the first serial_in_order filter of the pipeline
+numbered the items (the input filter's `get_ordered_token`, or `try_put_token` of the first ordered
+filter).  In every reachable state, the sequence of items on which any serial_in_order filter `k` has
+begun an invocation is a prefix of that one numbering. -/
+theorem serial_in_order (c : Cfg) (hv : c.Valid) (sched : List Tid) (k : Nat) (hk : (c.mode k).ordered = true) :
+    ((sys c).run sched).seen k <+: ((sys c).run sched).numbered := by
+  obtain ⟨_, _, hC, _, _⟩ := inv_reachable hv sched
+  rcases Nat.eq_zero_or_pos k with rfl | hpos
+  · rw [hC.seen0 hk]; exact List.prefix_refl _
+  · exact hC.seenPre k hk hpos
+
+/-- Hence all serial_in_order filters process the items in ONE common order: of the sequences seen so far
+by any two of them, one is a prefix of the other. -/
+theorem serial_in_order_common (c : Cfg) (hv : c.Valid) (sched : List Tid) (k1 k2 : Nat)
+    (h1 : (c.mode k1).ordered = true) (h2 : (c.mode k2).ordered = true) :
+    ((sys c).run sched).seen k1 <+: ((sys c).run sched).seen k2 ∨
+    ((sys c).run sched).seen k2 <+: ((sys c).run sched).seen k1 :=
+  List.prefix_or_prefix_of_prefix (serial_in_order c hv sched k1 h1) (serial_in_order c hv sched k2 h2)
+
+/-- **each_item_every_filter_once (safety).** In every reachable state: no item begins or ends an
+invocation of any filter twice; a filter ends on an item only after it began on it, and filter `k+1`
+begins on an item only after filter `k` ended on it; only items the input filter has returned appear. -/
+theorem each_item_every_filter_at_most_once (c : Cfg) (hv : c.Valid) (sched : List Tid) (k : Nat) :
+    (((sys c).run sched).seen k).Nodup ∧ (((sys c).run sched).done k).Nodup ∧
+    (∀ i, i ∈ ((sys c).run sched).done k → i ∈ ((sys c).run sched).seen k) ∧
+    (∀ i, i ∈ ((sys c).run sched).seen (k + 1) → i ∈ ((sys c).run sched).done k) ∧
+    (∀ i, i ∈ ((sys c).run sched).seen k → i < ((sys c).run sched).produced) := by
+  obtain ⟨hA, _, _, hD, _⟩ := inv_reachable hv sched
+  refine ⟨hD.seenNd k, hD.doneNd k, ?_, ?_, ?_⟩
+  · intro i hi
+    have := (hD.doneIff i k).1 hi
+    have := ended_le_begun c ((sys c).run sched) i
+    exact (hD.seenIff i k).2 (by omega)
+  · intro i hi
+    have := (hD.seenIff i (k + 1)).1 hi
+    have := ended_le_begun c ((sys c).run sched) i
+    exact (hD.doneIff i k).2 (by omega)
+  · intro i hi
+    have hb := (hD.seenIff i k).1 hi
+    rcases Nat.lt_or_ge i ((sys c).run sched).produced with h | h
+    · exact h
+    · have := (begun_of_none (c := c) (s := (sys c).run sched) (i := i)
+        (List.getElem?_eq_none (by rw [hA.locLen]; exact h))).1
+      omega
+
+/-- **pipeline_returns_after_drain.** `parallel_pipeline` returns when its wait counter reaches zero.
+In every reachable state with `wait = 0`: the input filter has signalled end of input, and every item it
+returned has been begun and ended by every filter `k < n` — in particular it has left the last filter. -/
+theorem pipeline_returns_after_drain (c : Cfg) (hv : c.Valid) (sched : List Tid)
+    (hw : ((sys c).run sched).wait = 0) :
+    ((sys c).run sched).eoi = true ∧
+    ∀ i k, i < ((sys c).run sched).produced → k < c.n →
+      i ∈ ((sys c).run sched).seen k ∧ i ∈ ((sys c).run sched).done k := by
+  obtain ⟨hA, hB, hC, hD, hE⟩ := inv_reachable hv sched
+  obtain ⟨he, hret⟩ := drained_of_wait_zero hv hA hB hC hE hw
+  refine ⟨he, fun i k hi hk => ?_⟩
+  have := begun_of_retired (c := c) (hret i hi)
+  exact ⟨(hD.seenIff i k).2 (by omega), (hD.doneIff i k).2 (by omega)⟩
+
+/-- **each_item_every_filter_once.** When the call returns (`wait = 0`), every item the input filter
+returned has passed through every filter exactly once: it occurs exactly once in the begin log and exactly
+once in the end log of every filter. -/
+theorem each_item_every_filter_once (c : Cfg) (hv : c.Valid) (sched : List Tid)
+    (hw : ((sys c).run sched).wait = 0) (i k : Nat) (hi : i < ((sys c).run sched).produced) (hk : k < c.n) :
+    (((sys c).run sched).seen k).count i = 1 ∧ (((sys c).run sched).done k).count i = 1 := by
+  obtain ⟨h1, h2⟩ := (pipeline_returns_after_drain c hv sched hw).2 i k hi hk
+  obtain ⟨n1, n2, _⟩ := each_item_every_filter_at_most_once c hv sched k
+  exact ⟨by rw [n1.count, if_pos h1], by rw [n2.count, if_pos h2]⟩
+
+/-- **serial_in_order, at return.** When the call returns, all serial_in_order filters have processed exactly
+the same sequence of items (every emitted item, in the order of the first such filter). -/
+theorem serial_in_order_at_return (c : Cfg) (hv : c.Valid) (sched : List Tid)
+    (hw : ((sys c).run sched).wait = 0) (k1 k2 : Nat) (hk1 : k1 < c.n) (hk2 : k2 < c.n)
+    (h1 : (c.mode k1).ordered = true) (h2 : (c.mode k2).ordered = true) :
+    ((sys c).run sched).seen k1 = ((sys c).run sched).seen k2 := by
+  have hall := (pipeline_returns_after_drain c hv sched hw).2
+  have hsub : ∀ ka kb, ka < c.n → kb < c.n →
+      (((sys c).run sched).seen ka).length ≤ (((sys c).run sched).seen kb).length := by
+    intro ka kb hka hkb
+    obtain ⟨n1, _, _, _, n5⟩ := each_item_every_filter_at_most_once c hv sched ka
+    exact nodup_subset_length _ _ n1 (fun x hx => (hall x kb (n5 x hx) hkb).1)
+  have hlen := Nat.le_antisymm (hsub k1 k2 hk1 hk2) (hsub k2 k1 hk2 hk1)
+  exact (List.prefix_of_prefix_length_le (serial_in_order c hv sched k1 h1) (serial_in_order c hv sched k2 h2)
+    (Nat.le_of_eq hlen)).eq_of_length hlen
+
+/-- **no_assertion_fails.** In no reachable state has the code's assertion in `try_put_token`
+(`token - low_token ≥ 0`) failed or `input_tokens.fetch_sub` been executed on a zero counter. -/
+theorem no_assertion_fails (c : Cfg) (hv : c.Valid) (sched : List Tid) : ((sys c).run sched).err = false :=
+  (inv_reachable hv sched).2.2.2.2.noErr
+
+/-! Non-vacuity: three filters (serial_in_order input, parallel, serial_in_order), 2 tokens, 3 items; a
+schedule in which item 1 overtakes item 0 in the parallel filter, is parked at the last filter, and is
+released by item 0's note-done. -/
+example :
+    let c : Cfg := { modes := [.inOrder, .parallel, .inOrder], maxTok := 2, total := 3 }
+    let s := (sys c).run [0, 0, 0, 1, 1, 1, 1, 1, 1, 0, 0, 0, 0, 0, 0, 2, 2, 2]
+    s.numbered = [0, 1] ∧ s.seen 1 = [1, 0] ∧ s.seen 2 = [0, 1] ∧ s.done 2 = [0, 1] ∧ s.err = false := by
+  decide
+
+example : Cfg.Valid { modes := [.inOrder, .parallel, .inOrder], maxTok := 2, total := 3 } :=
+  ⟨by decide, by decide⟩
+
+/-! Non-vacuity of the `wait = 0` hypothesis: a complete run (one item, out-of-order then in-order filter,
+one token) ends with the wait counter at zero. -/
+example :
+    let c : Cfg := { modes := [.outOfOrder, .inOrder], maxTok := 1, total := 1 }
+    let s := (sys c).run [0, 0, 0, 0, 0, 0, 0, 0, 0, 0, 0, 0]
+    s.wait = 0 ∧ s.eoi = true ∧ s.done 1 = [0] := by
+  decide
 
 end TbbVerif.C07
